@@ -63,6 +63,9 @@ fn main() {
 type Runner = fn(&Value, &Ctx) -> Outcome;
 
 fn family(name: &str) -> Option<Runner> {
+    if name == "cli" {
+        cli::LIMIT_CHILDREN.store(true, std::sync::atomic::Ordering::Relaxed);
+    }
     Some(match name {
         "array" => fam_array::run,
         "cli" => fam_cli::run,
